@@ -348,6 +348,12 @@ class Interp:
             rhs = self.ev(st.value, frame, ctx)
             self.setattr(o, t.attr, self.inplace(op, cur, rhs, ctx), ctx)
         elif isinstance(t, ast.Subscript):
+            part = self._cx_part_target(t, frame, ctx)
+            if part is not None:
+                idx = self.ev_index(t.slice, frame, ctx)
+                rhs = self.ev(st.value, frame, ctx)
+                arrays.cxpart_setitem(ctx, part[0], part[1], idx, rhs, op)
+                return
             o = self.ev(t.value, frame, ctx)
             idx = self.ev_index(t.slice, frame, ctx)
             rhs = self.ev(st.value, frame, ctx)
@@ -358,6 +364,14 @@ class Interp:
                 self.setitem(o, idx, self.inplace(op, cur, rhs, ctx), ctx)
         else:
             raise Unsupported("augassign target")
+
+    def _cx_part_target(self, t, frame, ctx):
+        """arr.real[...] / arr.imag[...] as a store target: numpy gives a writable view of the component"""
+        if isinstance(t.value, ast.Attribute) and t.value.attr in ("real", "imag"):
+            base = self.ev(t.value.value, frame, ctx)
+            if isinstance(base, (Vec, SymArr)):
+                return base, t.value.attr
+        return None
 
     def inplace(self, op, cur, rhs, ctx):
         """x op= y : in-place for mutable containers/arrays (same identity), rebind otherwise"""
@@ -370,6 +384,10 @@ class Interp:
                 cur.data = new.data
                 return cur
             raise Unsupported("in-place op changes shape")
+        from . import absarr as _ab
+        if isinstance(cur, SymArr) and isinstance(rhs, _ab.AbsArr):
+            # constant array (np.ones/np.zeros result) updated with an abstract array: the result is abstract
+            return _ab.binop(ctx, op, cur, rhs)
         if isinstance(cur, SymArr):
             new = arrays.arr_binop(ctx, op, cur, rhs)
             cur.elem = new.elem
@@ -610,6 +628,10 @@ class Interp:
         elif isinstance(target, ast.Attribute):
             self.setattr(self.ev(target.value, frame, ctx), target.attr, v, ctx)
         elif isinstance(target, ast.Subscript):
+            part = self._cx_part_target(target, frame, ctx)
+            if part is not None:
+                arrays.cxpart_setitem(ctx, part[0], part[1], self.ev_index(target.slice, frame, ctx), v, None)
+                return
             o = self.ev(target.value, frame, ctx)
             idx = self.ev_index(target.slice, frame, ctx)
             self.setitem(o, idx, v, ctx)
